@@ -16,7 +16,7 @@ func init() {
 		Explanation: "Static provenance / gate rules over normalizeNodeURI and connect: (id-binding) the user part of the advertised URL is url.User(nodeID) of the function's own nodeID parameter, an override naming another id is refused, and every caller chain hands in the verified identity; " +
 			"(hostport) url.URL.Host is net.JoinHostPort(host, port) — never a string concatenation, which breaks IPv6 literals — with host/port chosen from the override's Hostname()/Port() or the defaults; " +
 			"(refuse-unknown) the URL is built only past host != \"\", and in connect neither the host registry nor SetNode is reachable from the failure edge of the normalisation; " +
-			"(default) the default host derives from the calling connection's RemoteAddr() via Hostname() and the default port is the constant 30303; the URL that is stored is the one returned.",
+			"(default) the default host derives from the calling connection's RemoteAddr() via Hostname() and the default port is the constant 30303; the URL that is stored is the one returned. Round 2: (refuse-unknown, transport side) inside the RPC library a reported remote address never comes from an ad-hoc interface or a type assertion on the wrapped value.",
 		NotDecided: []string{"not decided: round-trip equality over all URI inputs (url.Parse/String semantics are trusted)"},
 	}
 	Registry["C20"] = Spec{
@@ -24,7 +24,7 @@ func init() {
 		Explanation: "Static lockset / must-pass-through / constant rules over the agent life cycle: (test-and-set) Start reads the started flag and sets it to true inside one uninterrupted a.mu region, refusing with ErrAlreadyStarted before any pool call when it was set; " +
 			"every return of Start between the set and the go statement, and every return of serveUpdates, is preceded by a reset of the flag under a.mu (inline or through a helper, possibly deferred); " +
 			"(single-spawn) Start contains exactly one go statement, reached only past successful Connect and UpdatePeers, whose goroutine sends serveUpdates' result on waitCh; Stop sends on stopCh, serveUpdates selects on it and returns, Wait receives waitCh; " +
-			"(interval) the loop's period is UpdateInterval (default KeepaliveInterval); the command line's value reaches the agent only past 'interval >= maxUpdateInterval => refuse', and maxUpdateInterval is initialised to at most ExpireInterval and written nowhere else.",
+			"(interval) the loop's period is UpdateInterval (default KeepaliveInterval); the command line's value reaches the agent only past 'interval >= maxUpdateInterval => refuse', and maxUpdateInterval is initialised to at most ExpireInterval and written nowhere else. Round 2: only Start, the loop and their reset-helper call sites write the started flag; the loop waits on a timer created in serveUpdates on every run.",
 		NotDecided: []string{"not decided: cadence in real time; Stop on an agent whose loop already ended (it blocks)"},
 	}
 }
